@@ -65,6 +65,8 @@ def describe(case):
 class Ref:
     """Reference twin: sorted logical scope + array in logical state order."""
 
+    SINGLE = False  # set per run by execute()
+
     def __init__(self, scope, arr, tainted=False):
         self.scope = list(scope)
         self.arr = np.asarray(arr, dtype=float)
@@ -74,7 +76,15 @@ class Ref:
         self.tainted = bool(tainted)
 
     def undefined_input(self):
-        return self.tainted or not bool(np.all(np.isfinite(self.arr)))
+        if self.tainted or not bool(np.all(np.isfinite(self.arr))):
+            return True
+        if Ref.SINGLE:
+            # float32 run configuration: magnitudes outside [1e-25, 1e25] over- or underflow (or lose all precision in sums) in
+            # single precision, which the float64 twin cannot predict cell by cell
+            a = np.abs(self.arr[self.arr != 0])
+            if a.size and (a.max() > 1e25 or a.min() < 1e-25):
+                return True
+        return False
 
     @classmethod
     def from_spec(cls, u, f):
@@ -138,7 +148,7 @@ def check_member(ctx, names, card, phi, ref, what, slot, strict_nonfinite=False,
     except Mismatch as e:
         ctx.fail("labels", f"{PROP}:labels:{what}", {"slot": slot, "why": str(e)})
         return False
-    if ref.tainted:
+    if ref.tainted or (single and ref.undefined_input()):
         ctx.probe("undefined_arithmetic_followed_structurally")
         return True
     a_cmp, r_cmp = np.asarray(arr, dtype=float), np.asarray(ref.arr, dtype=float)
@@ -166,6 +176,7 @@ def execute(case, ctx):
     if case["backend"] != "numpy":
         ctx.fault("backend_config")
     single = case["backend"].endswith("float32")
+    Ref.SINGLE = single
     if single:
         ctx.probe("dtype_float32")
     pool = [make(u, names, f) for f in case["init"]]
